@@ -269,7 +269,7 @@ impl Property for C09 {
     }
     fn strategy(&self, tier: Tier) -> BoxedStrategy<Case> {
         let maxd = tier.pick(4u32, 5u32);
-        (1usize..=3, 1usize..=2)
+        (sized(3, 6), sized(2, 3))
             .prop_flat_map(move |(n, p)| {
                 (
                     super::c02::tree_params_strategy(2, n, p, maxd).prop_flat_map(tree_spec),
